@@ -181,13 +181,21 @@ def load(c, irdump, path, case, h5on):
 
 
 def debug_runs(abidw, path, case):
+    """abidw --debug-tc / --debug-abidiff of the dbgcanon build; the error-stream lines are only sorted into the kinds the
+    library prints (src/abg-ir.cc, src/abg-reader.cc), TLC decides what they mean."""
     evs = []
     d = os.path.dirname(path)
-    for mode, opts in (("tc", ["--debug-tc", "--no-out"]), ("abidiff", ["--debug-abidiff", "--abidiff"])):
+    for mode, opts in (("tc", ["--debug-tc", "--noout"]), ("abidiff", ["--debug-abidiff", "--abidiff"])):
         r = vf.run([abidw] + opts + [path], env=vf.henv(d), timeout=120)
-        errs = [ln for ln in r.err.splitlines() if ln.startswith("error:") or "structural & canonical equality different" in ln]
-        evs.append({"e": "DebugRun", "case": case, "mode": mode, "exit": r.exit if not r.sig else 0, "sig": r.sig, "errors": len(errs),
-                    "ret": campaign.retof(r), "first": (errs[0] if errs else r.err[-200:])[:200]})
+        lines = r.err.splitlines()
+        errs = [ln for ln in lines if ln.startswith("error:")]
+        fn = [ln for ln in errs if re.match(r"error: wrong canonical type for 'function type ", ln)]
+        tid = [ln for ln in errs if re.match(r"error: no type with type-id: '[^']*' could be read back from the typeid file", ln)]
+        tc = [ln for ln in lines if "structural & canonical equality different" in ln]
+        other = [ln for ln in errs if ln not in fn and ln not in tid]
+        evs.append({"e": "DebugRun", "case": case, "mode": mode, "exit": r.exit if not r.sig else 0, "sig": r.sig,
+                    "errFnType": len(fn), "errTypeId": len(tid), "errOther": len(other), "tcDiffers": len(tc),
+                    "ret": campaign.retof(r), "first": ((tc + other + tid + fn + [r.err[-200:]])[0])[:200]})
     return evs
 
 
